@@ -689,6 +689,459 @@ func main() {
 '''
 
 
+GO_INSTR = r'''
+// C20 yield instrumenter: copies cmd/run.go and component/outbound/dialer/sticky_cache.go with a
+// yield call inserted before every statement of the functions whose atomic operations the reload
+// lock consists of.  The code itself is not changed.  Output files are written to the directory
+// given as second argument; a JSON description of the inserted points goes to stdout.
+package main
+
+import (
+	"bytes"
+	"encoding/json"
+	"fmt"
+	"go/ast"
+	"go/parser"
+	"go/printer"
+	"go/token"
+	"go/types"
+	"os"
+	"path/filepath"
+	"sort"
+	"strings"
+)
+
+type point struct {
+	Fn    string `json:"fn"`
+	Label string `json:"label"`
+	Line  int    `json:"line"`
+}
+
+var fset = token.NewFileSet()
+var points []point
+
+func die(f string, a ...any) {
+	fmt.Fprintf(os.Stderr, "anchor moved: "+f+"\n", a...)
+	os.Exit(3)
+}
+
+// functions that are called as one step (their inside is not instrumented)
+var fused = map[string]bool{"restoreRejectedReloadProgress": true, "clearRejectedReloadProgress": true,
+	"setRunSignalProgress": true, "getRunSignalProgress": true}
+var inner = map[string]bool{"clearReloadPending": true, "beginReloadProxyFailureSuppression": true,
+	"endReloadProxyFailureSuppression": true, "releaseReloadPendingAfterRetirement": true}
+
+// atomic operations in the part of a statement that is executed before any nested block
+func label(n ast.Node) string {
+	set := map[string]bool{}
+	ast.Inspect(n, func(x ast.Node) bool {
+		switch v := x.(type) {
+		case *ast.FuncLit, *ast.BlockStmt:
+			return false
+		case *ast.UnaryExpr:
+			if v.Op == token.ARROW {
+				set["recv"] = true
+			}
+		case *ast.SendStmt:
+			set["send"] = true
+		case *ast.CallExpr:
+			fn := types.ExprString(v.Fun)
+			if i := strings.LastIndex(fn, "."); i >= 0 {
+				switch fn[i+1:] {
+				case "CompareAndSwap":
+					set["cas"] = true
+				case "Load":
+					set["load"] = true
+				case "Store":
+					set["store"] = true
+				case "Add":
+					set["add"] = true
+				case "Swap":
+					set["swap"] = true
+				}
+			}
+			if fused[fn] {
+				set["call:"+fn] = true
+			}
+			if inner[fn] {
+				set["into:"+fn] = true
+			}
+		}
+		return true
+	})
+	var ks []string
+	for k := range set {
+		ks = append(ks, k)
+	}
+	sort.Strings(ks)
+	return strings.Join(ks, ",")
+}
+
+func headLabel(s ast.Stmt) string {
+	switch v := s.(type) {
+	case *ast.IfStmt:
+		l := ""
+		if v.Init != nil {
+			l = label(v.Init)
+		}
+		if c := label(v.Cond); c != "" {
+			if l != "" {
+				l += ","
+			}
+			l += c
+		}
+		return l
+	case *ast.ForStmt:
+		return ""
+	case *ast.SelectStmt:
+		// the communication clauses are evaluated by the select itself
+		set := []string{"select"}
+		for _, cl := range v.Body.List {
+			if cc := cl.(*ast.CommClause); cc.Comm != nil {
+				if l := label(cc.Comm); l != "" {
+					set = append(set, l)
+				}
+			}
+		}
+		return strings.Join(set, ",")
+	case *ast.GoStmt:
+		return "go"
+	case *ast.BlockStmt, *ast.SwitchStmt, *ast.LabeledStmt:
+		return ""
+	case *ast.ReturnStmt:
+		return label(v)
+	default:
+		return label(v)
+	}
+}
+
+func yieldCall(hook, fn, lab string) ast.Stmt {
+	return &ast.ExprStmt{X: &ast.CallExpr{Fun: ast.NewIdent(hook),
+		Args: []ast.Expr{&ast.BasicLit{Kind: token.STRING, Value: fmt.Sprintf("%q", fn)}, &ast.BasicLit{Kind: token.STRING, Value: fmt.Sprintf("%q", lab)}}}}
+}
+
+func instrBlock(hook, fn string, b *ast.BlockStmt) {
+	b.List = instrList(hook, fn, b.List)
+}
+
+func instrList(hook, fn string, list []ast.Stmt) []ast.Stmt {
+	var out []ast.Stmt
+	for _, s := range list {
+		lab := headLabel(s)
+		points = append(points, point{Fn: fn, Label: lab, Line: fset.Position(s.Pos()).Line})
+		out = append(out, yieldCall(hook, fn, lab))
+		instrStmt(hook, fn, s)
+		out = append(out, s)
+	}
+	return out
+}
+
+func instrStmt(hook, fn string, s ast.Stmt) {
+	switch v := s.(type) {
+	case *ast.BlockStmt:
+		instrBlock(hook, fn, v)
+	case *ast.IfStmt:
+		instrBlock(hook, fn, v.Body)
+		if v.Else != nil {
+			if eb, ok := v.Else.(*ast.BlockStmt); ok {
+				instrBlock(hook, fn, eb)
+			} else {
+				// else if: wrap so that the condition gets its own yield
+				nb := &ast.BlockStmt{List: []ast.Stmt{v.Else}}
+				instrBlock(hook, fn, nb)
+				v.Else = nb
+			}
+		}
+	case *ast.ForStmt:
+		instrBlock(hook, fn, v.Body)
+	case *ast.RangeStmt:
+		instrBlock(hook, fn, v.Body)
+	case *ast.SelectStmt:
+		for _, cl := range v.Body.List {
+			cc := cl.(*ast.CommClause)
+			cc.Body = instrList(hook, fn, cc.Body)
+		}
+	case *ast.SwitchStmt:
+		for _, cl := range v.Body.List {
+			cc := cl.(*ast.CaseClause)
+			cc.Body = instrList(hook, fn, cc.Body)
+		}
+	case *ast.LabeledStmt:
+		instrStmt(hook, fn, v.Stmt)
+	case *ast.GoStmt:
+		if fl, ok := v.Call.Fun.(*ast.FuncLit); ok {
+			sub := fn + ".go"
+			instrBlock(hook, sub, fl.Body)
+			// the new goroutine announces itself before anything else
+			exit := &ast.DeferStmt{Call: yieldCall(hook, sub, "exit").(*ast.ExprStmt).X.(*ast.CallExpr)}
+			fl.Body.List = append([]ast.Stmt{yieldCall(hook, sub, "spawned"), exit}, fl.Body.List...)
+		} else {
+			die("go statement without function literal in %s", fn)
+		}
+	case *ast.DeferStmt:
+		die("defer in %s", fn)
+	}
+}
+
+func instrument(path, hook string, want []string, outPath string) {
+	f, err := parser.ParseFile(fset, path, nil, parser.ParseComments)
+	if err != nil {
+		die("parse %s: %v", path, err)
+	}
+	found := map[string]bool{}
+	for _, d := range f.Decls {
+		fd, ok := d.(*ast.FuncDecl)
+		if !ok || fd.Recv != nil || fd.Body == nil {
+			continue
+		}
+		for _, w := range want {
+			if fd.Name.Name == w {
+				found[w] = true
+				instrBlock(hook, w, fd.Body)
+			}
+		}
+	}
+	for _, w := range want {
+		if !found[w] {
+			die("function %s not found in %s", w, path)
+		}
+	}
+	var b bytes.Buffer
+	if err := printer.Fprint(&b, fset, f); err != nil {
+		die("print: %v", err)
+	}
+	if err := os.WriteFile(outPath, b.Bytes(), 0644); err != nil {
+		die("write: %v", err)
+	}
+}
+
+func main() {
+	repo, out := os.Args[1], os.Args[2]
+	instrument(filepath.Join(repo, "cmd", "run.go"), "verifC20Yield",
+		[]string{"tryQueueReloadRequest", "clearReloadPending", "releaseReloadPendingAfterRetirement"}, filepath.Join(out, "run_instrumented.go"))
+	instrument(filepath.Join(repo, "component", "outbound", "dialer", "sticky_cache.go"), "VerifC20Yield",
+		[]string{"BeginReloadProxyFailureSuppression", "EndReloadProxyFailureSuppression"}, filepath.Join(out, "sticky_cache_instrumented.go"))
+	_ = json.NewEncoder(os.Stdout).Encode(points)
+}
+'''
+
+
+# (function, label) of every yield point on the unchanged tree: a different list means the atomic-step
+# mapping below (micro_actions) has to be re-read
+EXPECTED_POINTS = [
+    ("tryQueueReloadRequest", "cas"), ("tryQueueReloadRequest", ""), ("tryQueueReloadRequest", ""),
+    ("tryQueueReloadRequest", "call:restoreRejectedReloadProgress"), ("tryQueueReloadRequest", ""),
+    ("tryQueueReloadRequest", "into:beginReloadProxyFailureSuppression"), ("tryQueueReloadRequest", "select,send"),
+    ("tryQueueReloadRequest", ""), ("tryQueueReloadRequest", ""), ("tryQueueReloadRequest", "store"),
+    ("tryQueueReloadRequest", "into:endReloadProxyFailureSuppression"), ("tryQueueReloadRequest", ""), ("tryQueueReloadRequest", ""),
+    ("tryQueueReloadRequest", "call:restoreRejectedReloadProgress"), ("tryQueueReloadRequest", ""),
+    ("clearReloadPending", ""), ("clearReloadPending", "store"), ("clearReloadPending", "into:endReloadProxyFailureSuppression"),
+    ("clearReloadPending", "call:clearRejectedReloadProgress"),
+    ("releaseReloadPendingAfterRetirement", ""), ("releaseReloadPendingAfterRetirement", "into:endReloadProxyFailureSuppression"),
+    ("releaseReloadPendingAfterRetirement", ""), ("releaseReloadPendingAfterRetirement", ""),
+    ("releaseReloadPendingAfterRetirement", "into:clearReloadPending"), ("releaseReloadPendingAfterRetirement", ""),
+    ("releaseReloadPendingAfterRetirement", "go"), ("releaseReloadPendingAfterRetirement.go", "recv"),
+    ("releaseReloadPendingAfterRetirement.go", "into:clearReloadPending"),
+    ("BeginReloadProxyFailureSuppression", "add"),
+    ("EndReloadProxyFailureSuppression", ""), ("EndReloadProxyFailureSuppression", "load"), ("EndReloadProxyFailureSuppression", ""),
+    ("EndReloadProxyFailureSuppression", ""), ("EndReloadProxyFailureSuppression", "cas"), ("EndReloadProxyFailureSuppression", ""),
+    ("EndReloadProxyFailureSuppression", "add,store"), ("EndReloadProxyFailureSuppression", ""),
+]
+
+
+def instrument(sc):
+    """build-time overlay: copies of cmd/run.go and dialer/sticky_cache.go with a yield call before every
+    statement of the lock's functions (nothing is written into the repository).  Returns (overlay, points)."""
+    dd = sc.path("instr")
+    os.makedirs(os.path.join(dd, "out"), exist_ok=True)
+    with open(os.path.join(dd, "main.go"), "w") as f:
+        f.write(GO_INSTR)
+    with open(os.path.join(dd, "go.mod"), "w") as f:
+        f.write("module c20instr\ngo 1.22\n")
+    rc, so, se, dt = vlib.run(["go", "build", "-o", "instr", "."], cwd=dd, env=vlib.go_env(), timeout=300)
+    if rc != 0:
+        raise AnchorMoved("instrumenter does not build: " + (so + se)[-800:])
+    rc, so, se, dt = vlib.run([os.path.join(dd, "instr"), vlib.REPO, os.path.join(dd, "out")], cwd=dd, timeout=60)
+    if rc != 0:
+        raise AnchorMoved((se or so).strip()[-800:])
+    points = [(p["fn"], p["label"]) for p in json.loads(so)]
+    overlay = {os.path.join(vlib.REPO, "cmd", "run.go"): os.path.join(dd, "out", "run_instrumented.go"),
+               os.path.join(vlib.REPO, "component", "outbound", "dialer", "sticky_cache.go"): os.path.join(dd, "out", "sticky_cache_instrumented.go")}
+    return overlay, points
+
+
+# ------------------------------------------------------------------------------------------------
+# atomic-step schedules
+# ------------------------------------------------------------------------------------------------
+HOLDERS = [
+    [{"op": "T"}, {"op": "A", "b": True}, {"op": "A", "b": False}, {"op": "K"}],
+    [{"op": "T"}, {"op": "A", "b": True}, {"op": "F"}],
+    [{"op": "T"}, {"op": "A", "b": True}, {"op": "RD"}, {"op": "H"}, {"op": "O"}],
+    [{"op": "T"}, {"op": "A", "b": True}, {"op": "X"}, {"op": "H"}, {"op": "O"}],
+]
+
+
+def micro_threads(nsig, holder, rng):
+    return [{"kind": "sig", "b": rng.random() < 0.4} for _ in range(nsig)] + [{"kind": "holder", "ops": holder}]
+
+
+def gen_micro_adversarial(rng):
+    """the schedules a proof attempt stumbles over first"""
+    out = []
+    for hi, holder in enumerate(HOLDERS):
+        h = 2   # index of the holder thread with two signal threads
+        rel = "clearReloadPending/store"
+        th = micro_threads(2, holder, rng)
+        # two signals interleaved around the CompareAndSwap, statement by statement
+        out.append({"threads": th, "steps": [{"t": i % 2} for i in range(40)], "drain": True, "name": "lockstep-signals"})
+        out.append({"threads": th, "steps": [{"t": 0, "until": "cas"}, {"t": 1, "until": "cas"}, {"t": 0}, {"t": 1}], "drain": True, "name": "both-at-cas"})
+        out.append({"threads": th, "steps": [{"t": 1, "until": "cas"}, {"t": 0, "until": "done"}, {"t": 1, "until": "done"}], "drain": True, "name": "late-cas"})
+        # a refusal racing clearReloadPending: CAS fails just before the Store(false), report lands after
+        out.append({"threads": th, "steps": [{"t": 0, "until": "done"}, {"t": h, "until": rel}, {"t": 1, "until": "cas"}, {"t": 1},
+                                            {"t": h, "until": "done"}, {"t": 3, "until": "done"}, {"t": 1, "until": "done"}], "drain": True, "name": "refusal-races-release"})
+        # ... and just after it: the second request is accepted while the first one's End is still to come
+        for where in ("EndReloadProxyFailureSuppression/load", "EndReloadProxyFailureSuppression/cas", "clearReloadPending/call:clear"):
+            out.append({"threads": th, "steps": [{"t": 0, "until": "done"}, {"t": h, "until": where}, {"t": 1, "until": "done"},
+                                                {"t": h, "until": "done"}], "drain": True, "name": "end-races-begin@" + where.split("/")[1]})
+            out.append({"threads": th, "steps": [{"t": 0, "until": "done"}, {"t": h, "until": where}, {"t": 1, "until": "add"}, {"t": h},
+                                                {"t": 1}, {"t": h, "until": "done"}], "drain": True, "name": "end-step-begin-step@" + where.split("/")[1]})
+        # three signals, lockstep
+        th3 = micro_threads(3, holder, rng)
+        out.append({"threads": th3, "steps": [{"t": i % 3} for i in range(60)], "drain": True, "name": "lockstep-3"})
+        out.append({"threads": th3, "steps": [{"t": i % 4} for i in range(160)], "drain": True, "name": "lockstep-all"})
+    return out
+
+
+def gen_micro_random(rng):
+    nsig = rng.choice([2, 2, 3])
+    holder = rng.choice(HOLDERS)
+    th = micro_threads(nsig, holder, rng)
+    steps = []
+    for _ in range(rng.choice([30, 60, 120])):
+        r = rng.random()
+        if r < 0.04:
+            steps.append({"is_close": True, "close": 0})
+        elif r < 0.12:
+            steps.append({"t": rng.randrange(nsig + 2), "n": rng.choice([2, 3, 5])})
+        else:
+            steps.append({"t": rng.randrange(nsig + 2)})
+    return {"threads": th, "steps": steps, "drain": rng.random() < 0.9, "name": "random"}
+
+
+HOLDER_EFF = {"K": "EClearPending", "F": "EFinishFail", "O": "EFinishOk", "H": "EBeginHandoff", "X": "EClearPendingRetirement", "RD": "EStartRetirement"}
+
+
+def micro_actions(rec, prev, kind, own):
+    """the model actions one micro-step amounts to (the statement executed is the one after the yield
+    the goroutine was parked at: function rec['fn'], atomic operations rec['label'])"""
+    fn, lab = rec["fn"], [x for x in rec["label"].split(",") if x]
+    if rec["t"] == -1:
+        return ["ARetire %d" % rec.get("close", 0)] * 2
+    if fn == "EndReloadProxyFailureSuppression":
+        if "load" in lab and prev["supp"] <= 0:
+            return [own]
+        if "cas" in lab and rec["obs"]["supp"] == prev["supp"] - 1:
+            return [own]
+        return []
+    if fn == "BeginReloadProxyFailureSuppression":
+        return [own] if "add" in lab else []
+    if fn == "tryQueueReloadRequest":
+        if any(x in lab for x in ("cas", "select", "send", "store", "swap")) or any(x.startswith("call:restoreRejected") for x in lab):
+            return [own]
+        return []
+    if fn == "clearReloadPending":
+        if "store" in lab or any(x.startswith("call:clearRejected") for x in lab):
+            return [own]
+        return []
+    if fn == "releaseReloadPendingAfterRetirement.go":
+        return [own] if "recv" in lab else []
+    if fn == "op":
+        k = rec["label"]
+        return {"T": ["AWorkerTake 0"], "K": [], "F": ["AWorker"] * 2, "O": ["AWorker"] * 3}.get(k, ["AWorker"])
+    return []
+
+
+def mobs_coq(o):
+    if o["code"] not in ("Send", "Processing", "Done", "Error", "Busy") or not 0 <= o["supp"] <= 4000:
+        raise ValueError("observation outside the model's vocabulary: %r" % o)
+    return "(Build_mobs %s %s %s %d %d C%s Msg%s)" % (vlib.cbool(o["pending"]), vlib.cbool(o["active"]), vlib.cbool(o["reloading"]),
+                                                        o["supp"], o["qlen"], o["code"], o["msg"])
+
+
+def run_micro(sc, binary, cases, tag, d, scale=1):
+    """returns ({case index: [(step, code, note)]}, results, error)"""
+    inp, outp = sc.path("c20m_%s.in" % tag), sc.path("c20m_%s.out" % tag)
+    with open(inp, "w") as f:
+        for c in cases:
+            f.write(json.dumps({"threads": c["threads"], "steps": c["steps"], "drain": c["drain"]}) + "\n")
+    rc, so, se, dt = vlib.run_go_harness(binary, "TestVerifC20Micro", inp, outp, timeout=1800, extra_env={"VERIF_C20_SCALE": str(scale)})
+    if rc != 0:
+        return None, None, "micro harness failed rc=%d: %s %s" % (rc, so[-1500:], se[-1500:])
+    results = [json.loads(l) for l in open(outp)]
+    if len(results) != len(cases):
+        return None, None, "micro harness returned %d results for %d cases" % (len(results), len(cases))
+    pre, terms, idx = {}, [], []
+    init = {"pending": False, "active": False, "reloading": False, "supp": 0, "qlen": 0, "code": "Done", "msg": "None"}
+    for i, (c, r) in enumerate(zip(cases, results)):
+        if r.get("panic"):
+            pre[i] = [(0, 9, "panic: " + r["panic"])]
+            continue
+        if r.get("note"):
+            pre[i] = [(len(r.get("recs") or []), 8, r["note"])]
+            continue
+        kinds = r.get("kinds") or []
+        sig_ix, rel_ix = {}, {}
+        for t, k in enumerate(kinds):
+            if k == "sig":
+                sig_ix[t] = len(sig_ix)
+            elif k == "releaser":
+                rel_ix[t] = len(rel_ix)
+        holder = next(t["ops"] for t in c["threads"] if t["kind"] == "holder")
+        effs = []
+        for op in holder:
+            if op["op"] == "T":
+                continue
+            effs.append({"A": "ESetActive %s" % vlib.cbool(op.get("b")), "L": "ESetReloading %s" % vlib.cbool(op.get("b"))}.get(op["op"]) or HOLDER_EFF[op["op"]])
+        setup = ["ASignal %s" % vlib.cbool(t.get("b")) for t in c["threads"] if t["kind"] == "sig"]
+        prev = init
+        steps = []
+        try:
+            for rec in r.get("recs") or []:
+                t = rec["t"]
+                kind = kinds[t] if 0 <= t < len(kinds) else "sched"
+                own = {"sig": "ASig %d" % sig_ix.get(t, 0), "holder": "AWorker", "releaser": "AReleaser %d" % rel_ix.get(t, 0)}.get(kind, "")
+                acts = micro_actions(rec, prev, kind, own)
+                steps.append("(Build_micro_step %d [%s] %s)" % (1000 if t < 0 else t, "; ".join(acts), mobs_coq(rec["obs"])))
+                prev = rec["obs"]
+        except ValueError as e:
+            pre[i] = [(0, 6, str(e))]
+            continue
+        rets = r.get("rets") or []
+        res = ["(%d, %d%%N)" % (t, {1: 1, 0: 0}.get(rets[t], 2)) for t in sig_ix]
+        quiescent = all(x >= 0 for x in rets)
+        terms.append("(Build_micro_case (Build_tables [[%s]] [] %d %s%%N GAlways %s%%Z) [%s] [%s] [%s] %s)" % (
+            "; ".join(effs), d["cap"], hex(d["quiesce_ns"]), hex(d["budget_total_ns"]), "; ".join(setup), ";\n ".join(steps), "; ".join(res), vlib.cbool(quiescent)))
+        idx.append(i)
+    text = ("From Coq Require Import List NArith ZArith Bool.\nFrom Dae Require Import C20_Spec C20_Model C20_Check.\nImport ListNotations.\n"
+            "Definition cases : list micro_case := [\n" + ";\n".join(terms) + "\n].\n"
+            "Definition R := Eval vm_compute in map check_micro cases.\nPrint R.\n")
+    ok, outtxt = vlib.coq_eval("C20_micro_%s" % tag, text, timeout=3600)
+    if not ok:
+        return None, None, "coq evaluation of the atomic-step cases failed: " + outtxt[-2000:]
+    m = re.search(r"R\s*=\s*(.*?)\n\s*:\s*list", outtxt, re.S)
+    body = re.sub(r"\s+", "", m.group(1)).replace("%N", "")
+    per = re.findall(r"\[((?:\(\d+,\d+\);?)*)\]", body[1:-1])
+    if len(per) != len(idx):
+        return None, None, "cannot parse coq output of the atomic-step cases (%d vs %d)" % (len(per), len(idx))
+    errors = {}
+    for i, pp in zip(idx, per):
+        e = [(int(a), int(b), "") for a, b in re.findall(r"\((\d+),(\d+)\)", pp)]
+        if e:
+            errors[i] = e
+    errors.update(pre)
+    return errors, results, None
+
+
 class AnchorMoved(Exception):
     pass
 
@@ -1294,8 +1747,17 @@ def main(argv):
             return out.finish()
 
         # ---- 3. correspondence ----
-        binary, blog = vlib.build_go_test_binary(sc, "cmd", HARNESS, extra_overlay={
-            os.path.join(vlib.REPO, EXPORT[0]): os.path.join(vlib.VERIF, "harness", EXPORT[1])})
+        extra = {os.path.join(vlib.REPO, EXPORT[0]): os.path.join(vlib.VERIF, "harness", EXPORT[1])}
+        try:
+            yield_overlay, points = instrument(sc)
+            extra.update(yield_overlay)
+            if points != EXPECTED_POINTS:
+                tie_problems["yield_points_changed_shape"] = {"expected": EXPECTED_POINTS, "found": points}
+            cov["yield_points"] = len(points)
+        except AnchorMoved as e:
+            out.violation("tie", {"instrumenter": "anchor moved: %s" % e}, "yield instrumenter no longer understands the source; no failing input found", no_failing_input=True)
+            return out.finish()
+        binary, blog = vlib.build_go_test_binary(sc, "cmd", HARNESS, extra_overlay=extra)
         if binary is None:
             out.violation("build", {"broken": "harness build against the repository failed", "log": blog[-3000:]},
                           "correspondence harness no longer builds", no_failing_input=True)
@@ -1415,6 +1877,54 @@ def main(argv):
                 retry(cands[3:])
         has_spec = any(spec_errs(e) for e in all_err.values())
 
+        # ---- 3c. atomic-step schedules through the yield points ----
+        n_micro = 220 if quick else 4000
+        mcases = gen_micro_adversarial(rng) + [gen_micro_random(rng) for _ in range(n_micro)]
+        merr, mres, mfail = {}, [], None
+        mshard = 700
+        for s0 in range(0, len(mcases), mshard):
+            e, r, err = run_micro(sc, binary, mcases[s0:s0 + mshard], "m%d" % s0, d)
+            if err:
+                mfail = err
+                break
+            mres += r
+            for i, x in e.items():
+                merr[s0 + i] = x
+        micro_retried = micro_passed = 0
+        if not mfail:
+            # a stuck goroutine is believed only if it persists with the deadlines x4 and x16
+            for i in sorted(i for i, e in merr.items() if any(x[1] == 8 for x in e))[:3]:
+                micro_retried += 1
+                for scale in (4, 16):
+                    e, r, err = run_micro(sc, binary, [mcases[i]], "mretry", d, scale=scale)
+                    if err:
+                        break
+                    if not e.get(0):
+                        merr.pop(i, None)
+                        mres[i] = r[0]
+                        micro_passed += 1
+                        break
+                    merr[i], mres[i] = e[0], r[0]
+        m_spec = sorted((i for i, e in merr.items() if any(x[1] in (7, 8, 9) for x in e)), key=lambda j: (mcases[j]["name"] == "random", len(mres[j].get("recs") or [])))
+        m_model = sorted(i for i, e in merr.items() if any(x[1] == 6 for x in e) and i not in m_spec)
+        if m_spec:
+            i = m_spec[0]
+            recs = mres[i].get("recs") or []
+            out.violation("impl_vs_spec_schedule",
+                          {"case": mcases[i], "errors": merr[i], "trace": [(x["t"], x["fn"], x["label"], x["obs"], x.get("done"), x.get("ret")) for x in recs],
+                           "thread_results": mres[i].get("rets"), "goroutine_dump": mres[i].get("dump"), "failing_schedules": len(m_spec),
+                           "how": "feed `case` to TestVerifC20Micro (binary built with the yield overlay of tools/c20.py); t = goroutine released for one statement; "
+                                  "code 7: a request returned accepted without having taken the lock itself / a refused request changed flags, counter or queue / "
+                                  "at quiescence the muting counter or the number of accepted-unreleased requests is not (pending ? 1 : 0); code 8: a goroutine never came back"},
+                          "under an interleaving of the atomic steps of %d signal goroutines, the holder and the release goroutine the lock is broken: "
+                          "schedule %r (%d failing schedules)" % (sum(1 for t in mcases[i]["threads"] if t["kind"] == "sig"), mcases[i]["name"], len(m_spec)))
+        if mfail:
+            tie_problems["atomic_step_stage"] = mfail
+        elif m_model:
+            i = m_model[0]
+            tie_problems["atomic_step_correspondence"] = {"case": mcases[i], "errors": merr[i],
+                                                          "trace": [(x["t"], x["fn"], x["label"], x["obs"]) for x in (mres[i].get("recs") or [])]}
+
         # ---- 4. classify ----
         spec_fail = sorted(i for i, e in all_err.items() if spec_errs(e))
         model_fail = sorted(i for i, e in all_err.items() if any(x[1] in MODEL_CODES for x in e))
@@ -1495,7 +2005,10 @@ def main(argv):
                                "impl and model against the lock of the spec (held, muted, answer, refusal changes nothing); final state free after draining",
                    samples=[{"ops": sample["ops"], "drained": sample["drained"], "worker_paths": sample["wpaths"], "completion_paths": sample["mpaths"]}],
                    widened_search=widened, known_findings_matched=known,
-                   time_dependent_verdicts_retried=retried, retried_and_passed=retried_passed, retried_and_confirmed=retried_confirmed,
+                   time_dependent_verdicts_retried=retried + micro_retried, retried_and_passed=retried_passed + micro_passed, retried_and_confirmed=retried_confirmed,
+                   atomic_step_schedules=len(mcases), atomic_step_schedules_matching_model=len(mcases) - len(m_model) - len(m_spec),
+                   atomic_step_micro_steps=sum(len(r.get("recs") or []) for r in mres),
+                   atomic_step_schedule_kinds=sorted(set(c["name"] for c in mcases)),
                    extracted_paths={"worker": [" | ".join(p["effs"]) for p in d["worker"]], "main": [" | ".join(p["effs"]) for p in d["main"]]})
     return out.finish()
 
